@@ -302,12 +302,26 @@ class Runner:
 
 	def _run_impl(self) -> None:
 		"""トランスパイルの実行"""
+		self.ensure_unique_outputs()
 		target_paths = self.module_paths if self.config.force else [module_path for module_path in self.module_paths if self.can_transpile(module_path)]
 		for module_path in target_paths:
 			content = self.transpiler.transpile(self.by_entrypoint(module_path))
 			writer = Writer(self.output_filepath(module_path))
 			writer.put(content)
 			writer.flush()
+
+	def ensure_unique_outputs(self) -> None:
+		"""出力先の重複を検証。異なるモジュールが同一のファイルに出力されると、実行の度に内容が入れ替わるため設定エラーとする
+
+		Raises:
+			Errors.InvalidSchema: 異なるモジュールの出力先が同一
+		"""
+		owners: dict[str, str] = {}
+		for module_path in self.module_paths:
+			filepath = self.output_filepath(module_path)
+			owner = owners.setdefault(filepath, module_path.path)
+			if owner != module_path.path:
+				raise Errors.InvalidSchema(owner, module_path.path, filepath, 'Output path conflicted')
 
 	def can_transpile(self, module_path: ModulePath) -> bool:
 		"""トランスパイルを実行するか判定
